@@ -26,6 +26,7 @@ import (
 	"github.com/nyaruka/goflow/envs"
 	"github.com/nyaruka/goflow/excellent/types"
 	"github.com/nyaruka/goflow/flows"
+	"github.com/nyaruka/goflow/flows/definition"
 	"github.com/nyaruka/goflow/flows/definition/migrations"
 	"github.com/nyaruka/goflow/flows/engine"
 	"github.com/nyaruka/goflow/flows/resumes"
@@ -962,4 +963,46 @@ func runService(p *svcParams) (map[string][]byte, error) {
 		out["classification"] = jsonx.MustMarshal(c)
 	}
 	return out, nil
+}
+
+// ------------------------------------------------------------------------------------------------
+// family: definition (what reading an INVALID definition reports: the error text reaches engine output through
+// enter_flow's failure event and NewSession's error)
+
+type invalidDefParams struct {
+	Feature string          `json:"feature"`
+	Child   json.RawMessage `json:"child"`
+	Engine  *engineParams   `json:"engine"`
+}
+
+func invalidDefScenario(g *gen, idx int) *scenario {
+	child := newFlowB(g, "Invalid child")
+	headers := obj{}
+	for len(headers) < g.r.Range(2, 4) {
+		headers[hx.Pick(g.r, []string{"bad header", "worse header", "x y", "ünï", "a:b", "tab\there"})+fmt.Sprint(g.r.Intn(9))] = g.word()
+	}
+	headers["Accept"] = "text/plain"
+	child.addNode([]any{obj{"uuid": g.uuid(), "type": "call_webhook", "method": "GET", "url": "http://example.com/x", "headers": headers, "result_name": "R"}}, nil, 1)
+	childDef := child.finish()
+	parent := newFlowB(g, "Parent of invalid")
+	parent.addNode([]any{obj{"uuid": g.uuid(), "type": "send_msg", "text": "before"},
+		obj{"uuid": g.uuid(), "type": "enter_flow", "flow": obj{"uuid": child.uuid, "name": child.name}}}, nil, 1)
+	parent.addNode([]any{obj{"uuid": g.uuid(), "type": "send_msg", "text": "after"}}, nil, 1)
+	parentDef := parent.finish()
+	assetsObj, _ := stdAssets(g, []any{parentDef, childDef}, 0, nil, obj{})
+	trigger := obj{"type": "manual", "triggered_on": "2024-01-01T00:00:00.000000000-00:00", "environment": envJSON,
+		"flow": obj{"uuid": parent.uuid, "name": parent.name}, "contact": contactJSON(g, map[string]string{}, nil)}
+	p := &invalidDefParams{Feature: "invalid-headers", Child: mustJSON(childDef),
+		Engine: &engineParams{Feature: "invalid-child", Assets: mustJSON(assetsObj), Trigger: mustJSON(trigger)}}
+	s := &scenario{Family: "definition/invalid-headers", Index: idx, Params: p, Nontrivial: true}
+	s.run = func() (map[string][]byte, error) {
+		out, err := runEngine(p.Engine)
+		if err != nil {
+			out = map[string][]byte{"engine_error": []byte(err.Error())}
+		}
+		_, rerr := definition.ReadFlow(p.Child, nil)
+		out["readflow_error"] = []byte(fmt.Sprint(rerr))
+		return out, nil
+	}
+	return s
 }
